@@ -5,10 +5,10 @@ from harness import runner, tlc, isagen
 
 INV = ['SizeIsSum', 'StepsAreWholeBytes', 'Emit']
 ADDR = 16
-PAT = {'regpp': (1, ['regspp']), 'any': (1, ['anyop']), 'num': (1, ['num8']), 'reg': (1, ['regs']), 'ind': (1, ['ind']), 'num2': (2, ['num8', 'num8'])}
-INVTXT = {'regpp': 'mac r1++', 'sum': 'mac 3+2', 'bare': 'mac', 'lit': 'mac 5', 'fwd': 'mac fwd', 'back': 'mac back', 'reg': 'mac r1', 'ind': 'mac [r1+5]', 'lit2': 'mac 5, 9'}
-ARGTXT = {'regpp': [None], 'sum': ['3+2'], 'bare': [], 'lit': ['5'], 'fwd': ['fwd'], 'back': ['back'], 'lit2': ['5', '9'], 'ind': ['5'], 'reg': [None]}
-OPTXT = {'regpp': ['r1++'], 'sum': ['3+2'], 'bare': [], 'lit': ['5'], 'fwd': ['fwd'], 'back': ['back'], 'lit2': ['5', '9'], 'ind': ['[r1+5]'], 'reg': ['r1']}
+PAT = {'indn': (1, ['indnum']), 'regpp': (1, ['regspp']), 'any': (1, ['anyop']), 'num': (1, ['num8']), 'reg': (1, ['regs']), 'ind': (1, ['ind']), 'num2': (2, ['num8', 'num8'])}
+INVTXT = {'indn': 'mac [5]', 'regpp': 'mac r1++', 'sum': 'mac 3+2', 'bare': 'mac', 'lit': 'mac 5', 'fwd': 'mac fwd', 'back': 'mac back', 'reg': 'mac r1', 'ind': 'mac [r1+5]', 'lit2': 'mac 5, 9'}
+ARGTXT = {'indn': ['5'], 'regpp': [None], 'sum': ['3+2'], 'bare': [], 'lit': ['5'], 'fwd': ['fwd'], 'back': ['back'], 'lit2': ['5', '9'], 'ind': ['5'], 'reg': [None]}
+OPTXT = {'indn': ['[5]'], 'regpp': ['r1++'], 'sum': ['3+2'], 'bare': [], 'lit': ['5'], 'fwd': ['fwd'], 'back': ['back'], 'lit2': ['5', '9'], 'ind': ['[r1+5]'], 'reg': ['r1']}
 
 
 def step_text(ins, ph, n):
@@ -32,6 +32,9 @@ def macro_isa(m):
         'rel8e': {'operand_values': {'rle': {'type': 'relative_address', 'argument': arg(8), 'offset_from_instruction_end': True}}},
         'regs': {'operand_values': {'rr1': {'type': 'register', 'register': 'r1', 'bytecode': {'value': 1, 'size': 4}},
                                     'rr2': {'type': 'register', 'register': 'r2', 'bytecode': {'value': 2, 'size': 4}}}},
+        'indnum': {'operand_values': {'ix8': {'type': 'indirect_numeric', 'argument': arg(8)}}},
+        'numorind': {'operand_values': {'qn8': {'type': 'numeric', 'bytecode': {'value': 3, 'size': 4}, 'argument': arg(8)},
+                                        'qi8': {'type': 'indirect_numeric', 'bytecode': {'value': 1, 'size': 4}, 'argument': arg(8)}}},
         'regspp': {'operand_values': {'rp1': {'type': 'register', 'register': 'r1', 'bytecode': {'value': 3, 'size': 4},
                                               'decorator': {'type': 'plus_plus', 'is_prefix': False}}}},
         'regsany': {'operand_values': {'rq1': {'type': 'register', 'register': 'r1', 'bytecode': {'value': 1, 'size': 4}},
@@ -42,7 +45,7 @@ def macro_isa(m):
     }
     one = lambda v, s, st: {'bytecode': {'value': v, 'size': s}, 'operands': {'count': 1, 'operand_sets': {'list': [st]}}}
     instructions = {'i4': {'bytecode': {'value': 1, 'size': 4}}, 'ld': one(168, 8, 'num8'), 'w12': one(224, 8, 'num4'),
-                    'br': one(176, 8, 'rel8'), 'bre': one(177, 8, 'rel8e'), 'mv': one(12, 4, 'regs'), 'mvp': one(13, 4, 'regsany'), 'ldx': one(208, 8, 'ind')}
+                    'br': one(176, 8, 'rel8'), 'bre': one(177, 8, 'rel8e'), 'mv': one(12, 4, 'regs'), 'mvp': one(13, 4, 'regsany'), 'lda': {'bytecode': {'value': 10, 'size': 4}, 'operands': {'count': 1, 'operand_sets': {'list': ['numorind']}}}, 'ldx': one(208, 8, 'ind')}
     def variant(pat, steps):
         if pat == 'none':
             return {'instructions': steps}          # a variant without an operands section
@@ -154,10 +157,11 @@ def run(chk):
     chk.add_tlc(res)
     emits = res.emits
     if quick and len(emits) > 26000:
-        # quick tier: every accepted definition x invocation, and a seeded sample of the rejected ones
+        # quick tier: seeded samples of the accepted and of the rejected definition x invocation pairs
         rng = random.Random(chk.seed)
         rej = [e for e in emits if not e['ok']]
-        emits = [e for e in emits if e['ok']] + rng.sample(rej, min(len(rej), 6000))
+        acc = [e for e in emits if e['ok']]
+        emits = rng.sample(acc, min(len(acc), 11000)) + rng.sample(rej, min(len(rej), 5000))
     if not quick and len(emits) > 60000:
         rng = random.Random(chk.seed)
         emits = [e for e in emits if e['ok']] + rng.sample([e for e in emits if not e['ok']], 30000)
